@@ -20,7 +20,6 @@ use std::str::FromStr;
 use crate::class::Class;
 use crate::name::Name;
 use crate::rr::Type;
-use crate::util::Caseless;
 
 ////////////////////////////////////////////////////////////////////////
 // QUESTIONS                                                          //
@@ -121,13 +120,13 @@ impl FromStr for Qtype {
     type Err = &'static str;
 
     fn from_str(text: &str) -> Result<Self, Self::Err> {
-        match Caseless(text) {
-            Caseless("IXFR") => Ok(Self::IXFR),
-            Caseless("AXFR") => Ok(Self::AXFR),
-            Caseless("MAILB") => Ok(Self::MAILB),
-            Caseless("MAILA") => Ok(Self::MAILA),
-            Caseless("ANY") => Ok(Self::ANY),
-            Caseless("*") => Ok(Self::ANY),
+        match text.to_ascii_uppercase().as_str() {
+            "IXFR" => Ok(Self::IXFR),
+            "AXFR" => Ok(Self::AXFR),
+            "MAILB" => Ok(Self::MAILB),
+            "MAILA" => Ok(Self::MAILA),
+            "ANY" => Ok(Self::ANY),
+            "*" => Ok(Self::ANY),
             _ => Type::from_str(text).map(Into::into),
         }
     }
@@ -198,10 +197,10 @@ impl FromStr for Qclass {
     type Err = &'static str;
 
     fn from_str(text: &str) -> Result<Self, Self::Err> {
-        match Caseless(text) {
-            Caseless("NONE") => Ok(Self::NONE),
-            Caseless("ANY") => Ok(Self::ANY),
-            Caseless("*") => Ok(Self::ANY),
+        match text.to_ascii_uppercase().as_str() {
+            "NONE" => Ok(Self::NONE),
+            "ANY" => Ok(Self::ANY),
+            "*" => Ok(Self::ANY),
             _ => Class::from_str(text).map(Into::into),
         }
     }
